@@ -207,9 +207,20 @@ CLAIMED["C19"] = _e(
     "h11 raises nothing but ProtocolError; asyncio never calls data_received after close; BaseException out of scope.",
     "DESIGN.md §3 C19",
 )
+CLAIMED["C12"] = _e(
+    "Lean 4 proof over an event-driven system model (connections, registry, topics, per-connection coalescing queues, "
+    "timers, soon-callbacks): recipients safety for every history and next step, immediate types never wait for the "
+    "timer, quiescent-learned-equals-value invariant for all traces, drain; differential correspondence on real "
+    "HAPServer/HAPServerProtocol/AccessoryDriver objects on a virtual clock; transport-log oracle",
+    "Kernel-checked for every interleaving of app changes, controller writes, (un)subscribes, timer fires, connects and "
+    "losses under the stated address-reuse hypothesis; ~1000 scripts per quick run (exhaustive short scripts in thorough).",
+    "asyncio contract (atomic callbacks, FIFO call_soon, timers in deadline order); address reuse only after the previous "
+    "loss was processed; no setter/getter callbacks in the event model; one query per PUT.",
+    "DESIGN.md §3 C12",
+)
 
 NOT_YET = "not yet built in this round (model + theorems + correspondence pending; see DESIGN.md §7 build order)"
-NA = {}
+NA = {"C13": "built (model, 8 theorems, correspondence, oracle; repair committed in /repo) but its event model is being re-synchronised with the C03 guard on POST /resource; not claimed until the check is quiet on the unchanged tree"}
 
 
 def main():
